@@ -10,7 +10,7 @@ Not decided: f64 rounding of chained multiplications; separator dependence of th
 import re
 from fractions import Fraction
 
-from ..facts import fn_key, render, strip, alternatives, resolve_conds, cond_str, walk, AnchorLost, field_path
+from ..facts import fn_key, render, strip, alternatives, resolve_conds, cond_str, walk, AnchorLost, field_path, implied_strs
 from ..data import parse_code, abstract_tokens
 from ..tables import spec
 from ..common import check_binop_table, short_fn
@@ -224,7 +224,7 @@ def k4_walk(ctx):
     seen = {}
     for a, conds in alts:
         fields = [x[2] for x in walk(a) if x[0] == 'field' and x[2] in ('upgrade_code', 'downgrade_code')]
-        rc = [cond_str(d, v) for d, v in resolve_conds(b, conds)]
+        rc = implied_strs(b, conds)
         direction = [c for c in rc if re.search(r'index (Gt|Lt|Ge|Le) .*index', c)]
         if len(fields) != 1 or len(direction) != 1:
             ctx.finding('K4', 'calculate_unit/code-selection-not-extractable', 'cannot extract which code string is applied: %s under %s' % (render(a)[:100], rc), site=t['loc'])
@@ -254,7 +254,7 @@ def k4_walk(ctx):
                 if 'usize' not in ty:
                     continue
                 rhs = b.expr(s['ops'][1])
-                rc = [cond_str(d, v) for d, v in resolve_conds(b, tuple((d, v) for (_, d, v) in b.conditions(i)))]
+                rc = implied_strs(b, tuple((d, v) for (_, d, v) in b.conditions(i)))
                 direction = [c for c in rc if re.search(r'index (Gt|Lt|Ge|Le) .*index', c)]
                 steps.append((s['op'], render(rhs), direction[-1] if direction else None, s['loc']))
     if len(steps) < 4:
